@@ -238,6 +238,19 @@ func genC15(g *Rng, tier string, emit func(Op)) {
 		}
 		emit(Op{"ref": true, "op": "hashnumber", "class": "random", "a": hx(a), "b": hx(b), "index": hxi(int64(g.intn(100000))), "bitlen": hxi(int64(bl))})
 	}
+	// every number of contributions a proof list may have: 0 .. 70 (a list of n proofs contributes
+	// 2n numbers, more with non-revocation and range parts), both session kinds; likewise for the
+	// plain hash
+	for n := 0; n <= 70; n++ {
+		l := make([]*big.Int, n)
+		for j := range l {
+			l[j] = g.bits(1 + g.intn(1024))
+		}
+		for _, issig := range []bool{false, true} {
+			emit(Op{"ref": true, "op": "challenge", "class": "every-count", "context": hx(g.bits(256)), "nonce": hx(g.bits(128)), "contribs": hxs(l), "issig": issig})
+			emit(Op{"ref": true, "op": "hashcommit", "class": "every-count", "vals": hxs(l), "issig": issig})
+		}
+	}
 	// challenge sandwich
 	for i := 0; i < nLists/2; i++ {
 		n := g.intn(8)
